@@ -36,6 +36,7 @@ import (
 	compact_float "github.com/kstenerud/go-compact-float"
 	compact_time "github.com/kstenerud/go-compact-time"
 	"github.com/kstenerud/go-concise-encoding/ce/events"
+	"github.com/kstenerud/go-concise-encoding/configuration"
 	"github.com/kstenerud/go-concise-encoding/cte/parser"
 	"github.com/kstenerud/go-concise-encoding/internal/common"
 )
@@ -43,6 +44,14 @@ import (
 // See Antlr grammar at https://github.com/kstenerud/go-concise-encoding/tree/master/codegen/cte
 
 func ParseDocument(document string, eventReceiver events.DataEventReceiver) error {
+	return parseDocument(document, eventReceiver, nil)
+}
+
+// Parses a document, refusing numeric literals with more digits than the rules
+// configuration allows (nil = no limit). The limits have to be applied here
+// rather than by the rules, because converting the literal is what costs: the
+// time and memory needed to turn N digits into a big number grow with N squared.
+func parseDocument(document string, eventReceiver events.DataEventReceiver, rules *configuration.RuleConfiguration) error {
 	errorListener := new(reportingErrorListener)
 
 	is := antlr.NewInputStream(document)
@@ -57,6 +66,10 @@ func ParseDocument(document string, eventReceiver events.DataEventReceiver) erro
 	p.SetErrorHandler(new(bailErrorStrategy))
 
 	listener := newCteListener(eventReceiver)
+	if rules != nil {
+		listener.maxIntegerDigitCount = rules.MaxIntegerDigitCount
+		listener.maxFloatCoefficientDigitCount = rules.MaxFloatCoefficientDigitCount
+	}
 
 	antlr.ParseTreeWalkerDefault.Walk(listener, p.Cte())
 	return errorListener.Error
@@ -88,6 +101,10 @@ type cteListener struct {
 	mediaType       string
 	arrayData       []uint8
 	hexFloatRegex   *regexp.Regexp
+
+	// 0 = unlimited
+	maxIntegerDigitCount          uint64
+	maxFloatCoefficientDigitCount uint64
 }
 
 func newCteListener(eventReceiver events.DataEventReceiver) *cteListener {
@@ -196,6 +213,32 @@ func (_this *cteListener) ExitValueInt(ctx *parser.ValueIntContext) {
 		isNegative = true
 	}
 
+	if _this.maxIntegerDigitCount > 0 {
+		digitCount := len(str)
+		if isNegative {
+			digitCount--
+		}
+		// The limit is in decimal digits. Other bases are compared by the
+		// number of bits they carry (a decimal digit is about 3.32 bits).
+		hundredthsOfBitsPerDigit := 332
+		if digitCount > 2 && str[len(str)-digitCount] == '0' {
+			switch str[len(str)-digitCount+1] {
+			case 'x', 'X':
+				digitCount -= 2
+				hundredthsOfBitsPerDigit = 400
+			case 'o', 'O':
+				digitCount -= 2
+				hundredthsOfBitsPerDigit = 300
+			case 'b', 'B':
+				digitCount -= 2
+				hundredthsOfBitsPerDigit = 100
+			}
+		}
+		if uint64(digitCount)*uint64(hundredthsOfBitsPerDigit) > _this.maxIntegerDigitCount*332 {
+			panic(fmt.Errorf("integer has %v digits, which is more than the equivalent of %v decimal digits", digitCount, _this.maxIntegerDigitCount))
+		}
+	}
+
 	if v, err := strconv.ParseInt(str, 0, 64); err == nil {
 		if v == 0 && isNegative {
 			_this.eventReceiver.OnNegativeInt(0)
@@ -267,6 +310,20 @@ func (_this *cteListener) ExitValueFloat(ctx *parser.ValueFloatContext) {
 		// Split out negation because go doesn't handle -0 properly
 		sign = -sign
 		strNoSign = str[1:]
+	}
+
+	if _this.maxFloatCoefficientDigitCount > 0 {
+		// The limit is in decimal digits; a hex digit carries 4 bits, a
+		// decimal digit about 3.32.
+		var digitCount, hundredthsOfBitsPerDigit uint64
+		if strings.HasPrefix(strNoSign, "0x") || strings.HasPrefix(strNoSign, "0X") {
+			digitCount, hundredthsOfBitsPerDigit = uint64(countFloatSignificantDigits(strNoSign[2:])), 400
+		} else {
+			digitCount, hundredthsOfBitsPerDigit = uint64(countDecimalCoefficientDigits(strNoSign)), 332
+		}
+		if digitCount*hundredthsOfBitsPerDigit > _this.maxFloatCoefficientDigitCount*332 {
+			panic(fmt.Errorf("float coefficient has %v digits, which is more than the equivalent of %v decimal digits", digitCount, _this.maxFloatCoefficientDigitCount))
+		}
 	}
 
 	if strings.HasPrefix(strNoSign, "0x") || strings.HasPrefix(strNoSign, "0X") {
